@@ -95,6 +95,19 @@ Outcomes(n, cache, db) ==
         <<C, Q>> \in {cq \in UNION {{<<C2, Q2>> : Q2 \in SUBSET PrefsOf(n, C2)} : C2 \in CandSets(n)} :
                         Admissible(n, cq[1], cache, db, cq[2])}}
 
+\* A FAILED lookup: the service answers the question with an error (time-out,
+\* refusal ...).  A failure can only show when a question is sent, so the
+\* admissible outcomes of a check made while the service fails are
+\*   - the ordinary outcomes that ask nothing (q = {}: the unexpired cache
+\*     settles the verdict; the caller gets no error), and
+\*   - an error to the caller after a question q # {} that, as always, names
+\*     nothing but prefixes of the candidates' hashes.  No verdict, and the
+\*     cache stays exactly as it was: nothing has been learnt, in particular
+\*     not that the service lists nothing under the asked prefixes.
+FailQuestions(n) ==
+    UNION {(SUBSET PrefsOf(n, C)) \ {{}} : C \in CandSets(n)}
+QuietOutcomes(n, cache, db) == {o \in Outcomes(n, cache, db) : o.q = {}}
+
 \* The cache after the answer has been processed.  Written the way the
 \* mechanism works -- received hashes are grouped under THEIR OWN prefix
 \* (positive entries), prefixes that were asked and brought nothing back get
